@@ -17,6 +17,17 @@ use ractor::{Actor, ActorRef};
 use ractor_cluster::node::NodeServerSessionInformation;
 use ractor_cluster::{BoxRead, BoxWrite, ClusterBidiStream, NodeEventSubscription, NodeServer, NodeServerMessage};
 
+#[path = "../tcpq.rs"]
+mod tcpq;
+
+/// `--tcp 1`: the connections are REAL loopback TCP connections: the dialling node calls the real
+/// `client_connect` (node/client.rs) towards a relay socket of the harness, the relay dials the
+/// other node's real `Listener` (net/listener.rs) and copies bytes in PRNG-sized pieces.
+static TCP: std::sync::atomic::AtomicBool = std::sync::atomic::AtomicBool::new(false);
+fn tcp_mode() -> bool {
+    TCP.load(std::sync::atomic::Ordering::Relaxed)
+}
+
 struct Duplex {
     stream: tokio::io::DuplexStream,
     label: String,
@@ -38,10 +49,13 @@ impl ClusterBidiStream for Duplex {
 struct Events {
     ready: Vec<String>,        // peer_addr labels of sessions reported ready
     disconnected: Vec<String>, // labels of sessions reported disconnected
+    opened: Vec<(String, bool)>, // (label, is_server) of every session reported opened
 }
 struct Sub(Arc<Mutex<Events>>);
 impl NodeEventSubscription for Sub {
-    fn node_session_opened(&self, _: NodeServerSessionInformation) {}
+    fn node_session_opened(&self, s: NodeServerSessionInformation) {
+        self.0.lock().unwrap().opened.push((s.peer_addr, s.is_server));
+    }
     fn node_session_disconnected(&self, s: NodeServerSessionInformation) {
         self.0.lock().unwrap().disconnected.push(s.peer_addr);
     }
@@ -56,6 +70,14 @@ async fn schedule(ctl: &ractor::verif::Controller, rng: &mut Rng, budget: usize,
     for _ in 0..budget {
         let runnable: Vec<_> = ctl.tasks().into_iter().filter(|t| t.runnable()).collect();
         if runnable.is_empty() {
+            if tcp_mode() {
+                // real sockets: rest = no gated task runnable AND the runtime idle AND nothing unread /
+                // unsent / in flight on any socket of the process (an observable condition, not a pause)
+                if tcpq::settle_with(|| ctl.tasks().iter().any(|t| t.runnable())).await {
+                    return true;
+                }
+                continue;
+            }
             // let un-gated helper tasks (our own) and IO wake-ups settle
             for _ in 0..3 {
                 tokio::task::yield_now().await;
@@ -114,6 +136,12 @@ async fn schedule_except(ctl: &ractor::verif::Controller, rng: &mut Rng, budget:
     for _ in 0..budget {
         let runnable: Vec<_> = ctl.tasks().into_iter().filter(|t| t.runnable() && !starve.contains(&t.id)).collect();
         if runnable.is_empty() {
+            if tcp_mode() {
+                if tcpq::settle_with(|| ctl.tasks().iter().any(|t| t.runnable() && !starve.contains(&t.id))).await {
+                    return true;
+                }
+                continue;
+            }
             for _ in 0..3 {
                 tokio::task::yield_now().await;
             }
@@ -148,8 +176,26 @@ async fn spawn_node_alone(
     name: &str,
     host: &str,
 ) -> Option<(ActorRef<NodeServerMessage>, ractor::concurrency::JoinHandle<()>, usize)> {
+    spawn_node_on(ctl, rng, st, name, host, None).await
+}
+
+/// `listen`: `with_listen_addr` (the listener binds that address directly) instead of the default
+/// dual-stack `[::]` socket.
+async fn spawn_node_on(
+    ctl: &ractor::verif::Controller,
+    rng: &mut Rng,
+    st: &mut Stats,
+    name: &str,
+    host: &str,
+    listen: Option<std::net::IpAddr>,
+) -> Option<(ActorRef<NodeServerMessage>, ractor::concurrency::JoinHandle<()>, usize)> {
     let first = ctl.len();
-    let f = tokio::spawn(Actor::spawn(None, NodeServer::new(0, "cookie".to_string(), name.to_string(), host.to_string(), None, None), ()));
+    let enc = if tls_mode() { Some(ractor_cluster::IncomingEncryptionMode::Tls(tls_acceptor())) } else { None };
+    let mut server = NodeServer::new(0, "cookie".to_string(), name.to_string(), host.to_string(), enc, None);
+    if let Some(a) = listen {
+        server = server.with_listen_addr(a);
+    }
+    let f = tokio::spawn(Actor::spawn(None, server, ()));
     let mut guard = 0;
     while !f.is_finished() {
         schedule(ctl, rng, 50, st).await;
@@ -367,6 +413,570 @@ async fn reconnect_case(log: &mut Log, st: &mut Stats, rng: &mut Rng, case_no: u
     hb.abort();
 }
 
+
+// ------------------------------------------------------------------ real TCP (`--tcp 1`)
+
+use std::sync::atomic::{AtomicI64, Ordering};
+use tokio::io::{AsyncReadExt, AsyncWriteExt};
+
+/// How a relayed connection ends when its byte budget is used up / it is cut.
+#[derive(Clone, Copy, PartialEq)]
+enum CutHow {
+    /// close both relay sockets (both nodes read EOF)
+    Fin,
+    /// abortive close (SO_LINGER 0) of both relay sockets: both nodes get ECONNRESET
+    Rst,
+    /// stop copying but keep the sockets: half-close towards the acceptor only
+    HalfClose,
+}
+
+static LINK_NO: std::sync::atomic::AtomicU32 = std::sync::atomic::AtomicU32::new(0);
+
+/// `--tls 1` (with `--tcp 1`): both nodes accept with `IncomingEncryptionMode::Tls` and dial with the real
+/// `client_connect_enc`. The certificates are static test material generated once with openssl (a CA and
+/// a `localhost` server certificate signed by it, valid 2020-2120; src/tls/): no certificate generator is
+/// among the locked crates, rustls / rustls-pki-types (PEM parser) / aws-lc-rs are.
+static TLS: std::sync::atomic::AtomicBool = std::sync::atomic::AtomicBool::new(false);
+fn tls_mode() -> bool {
+    TLS.load(std::sync::atomic::Ordering::Relaxed)
+}
+const CA_PEM: &[u8] = include_bytes!("../tls/ca.pem");
+const SRV_PEM: &[u8] = include_bytes!("../tls/srv.pem");
+const SRV_KEY: &[u8] = include_bytes!("../tls/srv.key");
+
+fn tls_acceptor() -> tokio_rustls::TlsAcceptor {
+    use tokio_rustls::rustls::pki_types::{pem::PemObject, CertificateDer, PrivateKeyDer};
+    let _ = tokio_rustls::rustls::crypto::aws_lc_rs::default_provider().install_default();
+    let cert = CertificateDer::from_pem_slice(SRV_PEM).expect("server certificate");
+    let key = PrivateKeyDer::from_pem_slice(SRV_KEY).expect("server key");
+    let cfg = tokio_rustls::rustls::ServerConfig::builder().with_no_client_auth().with_single_cert(vec![cert], key).expect("server config");
+    tokio_rustls::TlsAcceptor::from(Arc::new(cfg))
+}
+
+fn tls_connector() -> tokio_rustls::TlsConnector {
+    use tokio_rustls::rustls::pki_types::{pem::PemObject, CertificateDer};
+    let _ = tokio_rustls::rustls::crypto::aws_lc_rs::default_provider().install_default();
+    let mut roots = tokio_rustls::rustls::RootCertStore::empty();
+    roots.add(CertificateDer::from_pem_slice(CA_PEM).expect("ca certificate")).expect("trust anchor");
+    let cfg = tokio_rustls::rustls::ClientConfig::builder().with_root_certificates(roots).with_no_client_auth();
+    tokio_rustls::TlsConnector::from(Arc::new(cfg))
+}
+
+/// the real client connect of the mode: `connect` or `connect_enc`
+async fn real_connect(node: &ActorRef<NodeServerMessage>, ip: std::net::Ipv4Addr, port: u16) -> Result<(), ractor_cluster::node::client::ClientConnectErr> {
+    if tls_mode() {
+        let name = tokio_rustls::rustls::pki_types::ServerName::try_from("localhost").expect("server name");
+        ractor_cluster::client_connect_enc(node, (ip, port), tls_connector(), name).await
+    } else {
+        ractor_cluster::client_connect(node, (ip, port)).await
+    }
+}
+
+struct TcpLink {
+    /// run-wide number of this link: both nodes' sessions see the peer address `tcpq::link_ip(g)`
+    g: u32,
+    /// bytes the dialler -> acceptor direction may still copy
+    budget: Arc<AtomicI64>,
+    cut: tokio::sync::watch::Sender<bool>,
+    how: Arc<Mutex<CutHow>>,
+}
+
+/// One direction of the relay. PRNG-sized reads (so the next node sees partial frames), PRNG yields.
+async fn tcp_pump(
+    mut r: tokio::net::tcp::OwnedReadHalf,
+    mut w: tokio::net::tcp::OwnedWriteHalf,
+    mut rng: Rng,
+    budget: Option<Arc<AtomicI64>>,
+    cut: tokio::sync::watch::Sender<bool>,
+    how: Arc<Mutex<CutHow>>,
+) {
+    use std::os::fd::AsRawFd;
+    let mut buf = [0u8; 512];
+    let mut cut_rx = cut.subscribe();
+    loop {
+        if *cut_rx.borrow() {
+            break;
+        }
+        let mut max = *rng.pick(&[1usize, 3, 7, 16, 64, 512]);
+        if let Some(b) = &budget {
+            let left = b.load(Ordering::SeqCst);
+            if left <= 0 {
+                let _ = cut.send(true);
+                break;
+            }
+            max = max.min(left as usize);
+        }
+        let n = tokio::select! {
+            _ = cut_rx.changed() => break,
+            x = r.read(&mut buf[..max]) => match x {
+                Ok(0) | Err(_) => break,
+                Ok(n) => n,
+            },
+        };
+        if let Some(b) = &budget {
+            b.fetch_sub(n as i64, Ordering::SeqCst);
+        }
+        if w.write_all(&buf[..n]).await.is_err() {
+            break;
+        }
+        for _ in 0..rng.below(3) {
+            tokio::task::yield_now().await;
+        }
+    }
+    let h = *how.lock().unwrap();
+    let was_cut = *cut_rx.borrow();
+    if was_cut {
+        match h {
+            CutHow::Rst => {
+                tcpq::set_reset_on_close(r.as_ref().as_raw_fd());
+                tcpq::set_reset_on_close(w.as_ref().as_raw_fd());
+                // no FIN before the RST: dropping an `OwnedWriteHalf` would shut the write side down
+                w.forget();
+                return;
+            }
+            CutHow::HalfClose => {
+                let _ = w.shutdown().await;
+                // keep reading (and discarding) so that the peer's close is seen and the socket goes away
+                let mut sink = [0u8; 512];
+                while let Ok(n) = r.read(&mut sink).await {
+                    if n == 0 {
+                        break;
+                    }
+                }
+            }
+            CutHow::Fin => {}
+        }
+    }
+    // both halves dropped: FIN (or RST) to both nodes
+}
+
+/// `dialler` connects (real `client_connect`) to a fresh relay listener; the relay dials
+/// `acceptor_port` (the other node's real `Listener`). Event-driven throughout.
+async fn tcp_link(
+    ctl: &ractor::verif::Controller,
+    rng: &mut Rng,
+    st: &mut Stats,
+    dialler: &ActorRef<NodeServerMessage>,
+    acceptor_port: u16,
+    budget: i64,
+    how: CutHow,
+) -> Option<TcpLink> {
+    let g = LINK_NO.fetch_add(1, Ordering::SeqCst);
+    let ip = tcpq::link_ip(g);
+    let (l, lp) = tcpq::listen_on(ip).ok()?;
+    let d = dialler.clone();
+    let h = tokio::spawn(async move { real_connect(&d, std::net::Ipv4Addr::from(ip), lp).await.is_ok() });
+    let from_dialler = tcpq::accept_one(&l, 20).await?;
+    // the relay is complete before the dialler's connect has returned: with TLS the handshake itself
+    // runs through the relay (and through the acceptor's gated listener task)
+    let to_acceptor = tcpq::dial_from(ip, acceptor_port).ok()?;
+    let link = TcpLink {
+        g,
+        budget: Arc::new(AtomicI64::new(budget)),
+        cut: tokio::sync::watch::channel(false).0,
+        how: Arc::new(Mutex::new(how)),
+    };
+    let (dr, dw) = from_dialler.into_split();
+    let (ar, aw) = to_acceptor.into_split();
+    tokio::spawn(tcp_pump(dr, aw, rng.fork(), Some(link.budget.clone()), link.cut.clone(), link.how.clone()));
+    tokio::spawn(tcp_pump(ar, dw, rng.fork(), None, link.cut.clone(), link.how.clone()));
+    let mut guard = 0;
+    while !h.is_finished() {
+        schedule(ctl, rng, 5, st).await;
+        guard += 1;
+        if guard > 20_000 {
+            return None;
+        }
+    }
+    if !h.await.unwrap_or(false) {
+        // raw TCP: cannot happen on an accepting listener; TLS: the handshake died with a doomed link -
+        // `connect_enc` returned Err(Encryption) and (model: `setupFails` / `okTlsFails`) neither node
+        // may get a session out of it
+        st.bump("tcp_client_connect_failed");
+        let _ = link.cut.send(true);
+        return None;
+    }
+    st.bump("tcp_links");
+    Some(link)
+}
+
+/// A connect to a port nobody listens on: the real `client_connect` must report the error and the
+/// node must not get a session out of it. Returns (reported an error, sessions created).
+async fn tcp_refused(ctl: &ractor::verif::Controller, rng: &mut Rng, st: &mut Stats, node: &ActorRef<NodeServerMessage>) -> (bool, usize) {
+    // a port that was just free: bind, read the port, close
+    let port = {
+        let (l, p) = tcpq::listen().expect("probe listener");
+        drop(l);
+        p
+    };
+    let before = node.get_children().len();
+    let d = node.clone();
+    let h = tokio::spawn(async move {
+        match real_connect(&d, std::net::Ipv4Addr::LOCALHOST, port).await {
+            // the error must be the socket error, and say so
+            Err(e) => {
+                use std::error::Error;
+                #[allow(deprecated)]
+                let caused = e.cause().is_some();
+                matches!(e, ractor_cluster::node::client::ClientConnectErr::Socket(_)) && format!("{e}").contains("Socket") && caused
+            }
+            Ok(()) => false,
+        }
+    });
+    let mut guard = 0;
+    while !h.is_finished() && guard < 2000 {
+        schedule(ctl, rng, 5, st).await;
+        guard += 1;
+    }
+    let err = h.await.unwrap_or(false);
+    schedule(ctl, rng, 10_000, st).await;
+    (err, node.get_children().len().saturating_sub(before))
+}
+
+struct TcpWorld {
+    ctl: Arc<ractor::verif::Controller>,
+    a: ActorRef<NodeServerMessage>,
+    b: ActorRef<NodeServerMessage>,
+    ha: ractor::concurrency::JoinHandle<()>,
+    hb: ractor::concurrency::JoinHandle<()>,
+    port: [u16; 2],
+    ev_a: Arc<Mutex<Events>>,
+    ev_b: Arc<Mutex<Events>>,
+    links: Vec<TcpLink>,
+    /// per link: did A dial it
+    dialled_by_a: Vec<bool>,
+    /// per node: connects to a dead port made / of which returned Err
+    refused: [usize; 2],
+    refused_errs: [usize; 2],
+    /// per node: link numbers of connections the HARNESS made to its listener while the process was
+    /// out of file descriptors (accept() failed with EMFILE until the descriptors came back)
+    starved: [Vec<u32>; 2],
+}
+
+impl TcpWorld {
+    async fn new(rng: &mut Rng, st: &mut Stats, na: &str, nb: &str, host: &str) -> Option<TcpWorld> {
+        let ctl = ractor::verif::install();
+        let p0 = tcpq::listening_ports();
+        // one node in two binds 127.0.0.1 explicitly (`with_listen_addr`), the other the default dual-stack socket
+        let v4 = Some(std::net::IpAddr::V4(std::net::Ipv4Addr::LOCALHOST));
+        let (la, lb) = match rng.below(4) {
+            0 => (v4, None),
+            1 => (None, v4),
+            2 => (v4, v4),
+            _ => (None, None),
+        };
+        let (a, ha, _) = spawn_node_on(&ctl, rng, st, na, host, la).await?;
+        let p1 = tcpq::listening_ports();
+        let (b, hb, _) = spawn_node_on(&ctl, rng, st, nb, host, lb).await?;
+        let p2 = tcpq::listening_ports();
+        let pa = *p1.iter().find(|p| !p0.contains(p))?;
+        let pb = *p2.iter().find(|p| !p1.contains(p))?;
+        let ev_a = Arc::new(Mutex::new(Events::default()));
+        let ev_b = Arc::new(Mutex::new(Events::default()));
+        a.cast(NodeServerMessage::SubscribeToEvents { id: "v".into(), subscription: Box::new(Sub(ev_a.clone())) }).ok()?;
+        b.cast(NodeServerMessage::SubscribeToEvents { id: "v".into(), subscription: Box::new(Sub(ev_b.clone())) }).ok()?;
+        schedule(&ctl, rng, 200, st).await;
+        Some(TcpWorld { ctl, a, b, ha, hb, port: [pa, pb], ev_a, ev_b, links: Vec::new(), dialled_by_a: Vec::new(), refused: [0; 2], refused_errs: [0; 2], starved: [Vec::new(), Vec::new()] })
+    }
+
+    /// connection index `i` dialled by A (`a_dials`) or by B
+    async fn open(&mut self, rng: &mut Rng, st: &mut Stats, a_dials: bool, budget: i64, how: CutHow) -> bool {
+        let (d, ap) = if a_dials { (self.a.clone(), self.port[1]) } else { (self.b.clone(), self.port[0]) };
+        match tcp_link(&self.ctl, rng, st, &d, ap, budget, how).await {
+            Some(l) => {
+                self.links.push(l);
+                self.dialled_by_a.push(a_dials);
+                true
+            }
+            None => false,
+        }
+    }
+
+    /// `peer_addr` of a session of node A (`side` 0) / B (`side` 1) -> `c<i>`
+    fn label(&self, _side: usize, addr: &str) -> String {
+        let g = tcpq::link_of(addr);
+        match self.links.iter().position(|l| Some(l.g) == g) {
+            Some(i) => format!("c{i}"),
+            None => format!("c999{}", tcpq::port_of(addr).unwrap_or(0)),
+        }
+    }
+
+    async fn kept(&self, rng: &mut Rng, st: &mut Stats, side: usize) -> Vec<String> {
+        let node = if side == 0 { &self.a } else { &self.b };
+        let mut v: Vec<String> = sessions(&self.ctl, rng, st, node).await.iter().map(|s| if s.starts_with('<') { s.clone() } else { self.label(side, s) }).collect();
+        v.sort();
+        v
+    }
+
+    fn ready(&self, side: usize) -> Vec<String> {
+        let ev = if side == 0 { &self.ev_a } else { &self.ev_b };
+        ev.lock().unwrap().ready.iter().map(|s| self.label(side, s)).collect()
+    }
+
+    fn disconnected(&self, side: usize) -> Vec<String> {
+        let ev = if side == 0 { &self.ev_a } else { &self.ev_b };
+        let mut d: Vec<String> = ev.lock().unwrap().disconnected.iter().map(|s| self.label(side, s)).collect();
+        d.sort();
+        d
+    }
+
+    /// The `lsn` lines (Model/Listener.lean): what was done to node `side`'s listener / through its
+    /// `client_connect`, and the sessions it reported opened. `idx[j]` = index of link j.
+    fn lsn(&self, side: usize, idx: &[usize], log: &mut Log) {
+        let mut acc: Vec<usize> = Vec::new();
+        let mut dial: Vec<usize> = Vec::new();
+        for (j, by_a) in self.dialled_by_a.iter().enumerate() {
+            let i = idx.get(j).copied().unwrap_or(9990 + j);
+            if (*by_a && side == 0) || (!*by_a && side == 1) { dial.push(i) } else { acc.push(i) }
+        }
+        for n in 0..self.starved[side].len() {
+            acc.push(500 + n);
+        }
+        acc.sort_unstable();
+        dial.sort_unstable();
+        let ev = if side == 0 { &self.ev_a } else { &self.ev_b };
+        let mut srv: Vec<usize> = Vec::new();
+        let mut cli: Vec<usize> = Vec::new();
+        for (addr, is_server) in ev.lock().unwrap().opened.iter() {
+            let g = tcpq::link_of(addr);
+            let i = match self.links.iter().position(|l| Some(l.g) == g) {
+                Some(j) => idx.get(j).copied().unwrap_or(9990 + j),
+                None => match self.starved[side].iter().position(|x| Some(*x) == g) {
+                    Some(n) => 500 + n,
+                    None => 99900,
+                },
+            };
+            if *is_server { srv.push(i) } else { cli.push(i) }
+        }
+        srv.sort_unstable();
+        cli.sort_unstable();
+        let f = |v: &[usize]| if v.is_empty() { "-".to_string() } else { v.iter().map(|i| format!("c{i}")).collect::<Vec<_>>().join(",") };
+        log.rec(
+            format!("lsn {} acc={} dial={} refused={}", if side == 0 { "a" } else { "b" }, f(&acc), f(&dial), self.refused[side]),
+            format!("errs={} server={} client={}", self.refused_errs[side], f(&srv), f(&cli)),
+        );
+    }
+
+    async fn finish(self, rng: &mut Rng, st: &mut Stats) {
+        for l in &self.links {
+            let _ = l.cut.send(true);
+        }
+        self.a.stop(None);
+        self.b.stop(None);
+        schedule(&self.ctl, rng, 200_000, st).await;
+        ractor::verif::uninstall();
+        // observation (not a clause): is a stopped node's port still bound?
+        let still: usize = tcpq::listening_ports().iter().filter(|p| self.port.contains(p)).count();
+        st.add("tcp_ports_still_listening_after_node_stop", still as u64);
+        self.ha.abort();
+        self.hb.abort();
+        tcpq::settle().await;
+        let still: usize = tcpq::listening_ports().iter().filter(|p| self.port.contains(p)).count();
+        st.add("tcp_ports_still_listening_after_join_abort", still as u64);
+    }
+}
+
+fn fmt_l(v: &[String]) -> String {
+    if v.is_empty() { "-".to_string() } else { v.join(",") }
+}
+
+/// `e2e` over real TCP: k connections in PRNG directions and order with PRNG scheduling in between;
+/// additionally 0-2 DOOMED connections (indices >= k, not part of the op) that are cut - FIN, RST or
+/// half-close - after fewer bytes than the first handshake frame, and in one case of three a connect
+/// to a dead port first. Same op / observation format as the in-memory case: the oracle needs no change.
+async fn tcp_case(log: &mut Log, st: &mut Stats, rng: &mut Rng, case_no: u64) {
+    let pool = [("a", "b"), ("b", "a"), ("n1", "n10"), ("x", "Y"), ("node2", "node10")];
+    let (na, nb) = *rng.pick(&pool);
+    let k = rng.range(1, 4) as usize;
+    let dir_mode = rng.below(4);
+    let dirs: Vec<bool> = (0..k)
+        .map(|_| match dir_mode {
+            0 => true,
+            1 => false,
+            _ => rng.chance(1, 2),
+        })
+        .collect();
+    let host = format!("h{case_no}");
+    let Some(mut w) = TcpWorld::new(rng, st, na, nb, &host).await else {
+        log.rec(format!("e2e {na} {nb} {k} spawn-stuck"), "error");
+        ractor::verif::uninstall();
+        return;
+    };
+    if rng.chance(1, 3) {
+        let side = rng.below(2) as usize;
+        let node = if side == 0 { w.a.clone() } else { w.b.clone() };
+        let (err, made) = tcp_refused(&w.ctl, rng, st, &node).await;
+        st.bump("tcp_refused_connects");
+        w.refused[side] += 1;
+        if err {
+            w.refused_errs[side] += 1;
+        }
+        let _ = made; // a session made out of it shows in the `lsn` line (an opened session of no link)
+    }
+    if rng.chance(1, 4) {
+        // accept() ERRORS on the real listener: a connection waits in the accept queue while the process
+        // has no free descriptor (EMFILE); the listener must keep going and accept it once descriptors
+        // are back - exactly one server-side session for it (it is closed again before the election part)
+        let side = rng.below(2) as usize;
+        let g = LINK_NO.fetch_add(1, Ordering::SeqCst);
+        if let Ok(sock) = tcpq::dial_from(tcpq::link_ip(g), w.port[side]) {
+            let opened_before = (if side == 0 { &w.ev_a } else { &w.ev_b }).lock().unwrap().opened.len();
+            if let Some(guard) = tcpq::exhaust_fds() {
+                let n = *rng.pick(&[5usize, 40, 200]);
+                schedule(&w.ctl, rng, n, st).await;
+                let during = (if side == 0 { &w.ev_a } else { &w.ev_b }).lock().unwrap().opened.len();
+                if during == opened_before {
+                    st.bump("tcp_accept_starved");
+                }
+                drop(guard);
+            }
+            schedule(&w.ctl, rng, 400_000, st).await;
+            if !tls_mode() {
+                w.starved[side].push(g);
+            } // TLS: the harness never speaks TLS on it - the acceptor's handshake fails, NO session
+            drop(sock);
+            schedule(&w.ctl, rng, 400_000, st).await;
+            st.bump("tcp_accept_error_phases");
+        }
+    }
+    let mut order: Vec<usize> = (0..k).collect();
+    rng.shuffle(&mut order);
+    // the real connections first get their indices in `order`; `links[j]` is connection `order[j]`
+    let mut opened: Vec<usize> = Vec::new();
+    for &i in &order {
+        if w.open(rng, st, dirs[i], i64::MAX, CutHow::Fin).await {
+            opened.push(i);
+        }
+        let n = *rng.pick(&[0usize, 3, 10, 40, 400]);
+        schedule(&w.ctl, rng, n, st).await;
+        if rng.chance(1, 3) {
+            // a doomed connection: dies before its first frame is complete
+            let how = *rng.pick(&[CutHow::Fin, CutHow::Rst, CutHow::HalfClose]);
+            let budget = rng.below(30) as i64;
+            let by_a = rng.chance(1, 2);
+            if w.open(rng, st, by_a, budget, how).await {
+                opened.push(usize::MAX);
+                st.bump(match how {
+                    CutHow::Fin => "tcp_doomed_fin",
+                    CutHow::Rst => "tcp_doomed_rst",
+                    CutHow::HalfClose => "tcp_doomed_halfclose",
+                });
+            }
+            let n = *rng.pick(&[0usize, 3, 40]);
+            schedule(&w.ctl, rng, n, st).await;
+        }
+    }
+    let quiet = schedule(&w.ctl, rng, 400_000, st).await;
+    if !quiet {
+        st.bump("not_quiescent");
+    }
+    // index of link j: the real ones as opened, the doomed ones k, k+1, …
+    let mut next_doomed = k;
+    let idx: Vec<usize> = opened
+        .iter()
+        .map(|&i| {
+            if i == usize::MAX {
+                next_doomed += 1;
+                next_doomed - 1
+            } else {
+                i
+            }
+        })
+        .collect();
+    let relabel = |v: Vec<String>| -> Vec<String> {
+        v.into_iter()
+            .map(|l| match l.strip_prefix('c').and_then(|x| x.parse::<usize>().ok()) {
+                Some(j) if j < idx.len() => format!("c{}", idx[j]),
+                _ => l,
+            })
+            .collect()
+    };
+    let mut sa = relabel(w.kept(rng, st, 0).await);
+    let mut sb = relabel(w.kept(rng, st, 1).await);
+    sa.sort();
+    sb.sort();
+    let raw_a = relabel(w.ready(0));
+    let raw_b = relabel(w.ready(1));
+    let mut ra: Vec<String> = raw_a.iter().filter(|l| sa.contains(l)).cloned().collect();
+    let mut rb: Vec<String> = raw_b.iter().filter(|l| sb.contains(l)).cloned().collect();
+    ra.sort();
+    rb.sort();
+    st.add("ready_events", (raw_a.len() + raw_b.len()) as u64);
+    if dirs.iter().any(|d| *d) && dirs.iter().any(|d| !*d) {
+        st.bump("e2e_both_directions");
+    }
+    st.bump(&format!("e2e_k{k}"));
+    let dirs_s: String = dirs.iter().map(|d| if *d { 'a' } else { 'b' }).collect();
+    log.rec(
+        format!("e2e {na}@{host} {nb}@{host} {k} {dirs_s}"),
+        format!("{}|{}|{}|{}|{}|{}", fmt_l(&sa), fmt_l(&sb), fmt_l(&ra), fmt_l(&rb), fmt_l(&raw_a), fmt_l(&raw_b)),
+    );
+    w.lsn(0, &idx, log);
+    w.lsn(1, &idx, log);
+    w.finish(rng, st).await;
+}
+
+/// `e2r` over real TCP: the established link dies because the RELAY cuts it at rest - FIN, RST or a
+/// half-close (by = which node sees it first is immaterial to the oracle) -, then fresh dials.
+async fn tcp_reconnect_case(log: &mut Log, st: &mut Stats, rng: &mut Rng, case_no: u64) {
+    let pool = [("a", "b"), ("b", "a"), ("n1", "n10"), ("x", "Y")];
+    let (na, nb) = *rng.pick(&pool);
+    let host = format!("r{case_no}");
+    let k1 = rng.range(1, 3) as usize;
+    let k2 = rng.range(1, 3) as usize;
+    let dirs: Vec<bool> = (0..k1 + k2).map(|_| rng.chance(1, 2)).collect();
+    let how = *rng.pick(&[CutHow::Fin, CutHow::Rst, CutHow::HalfClose]);
+    let Some(mut w) = TcpWorld::new(rng, st, na, nb, &host).await else {
+        ractor::verif::uninstall();
+        return;
+    };
+    for i in 0..k1 {
+        w.open(rng, st, dirs[i], i64::MAX, how).await;
+        let n = *rng.pick(&[0usize, 3, 10, 40, 400]);
+        schedule(&w.ctl, rng, n, st).await;
+    }
+    schedule(&w.ctl, rng, 400_000, st).await;
+    let s1a = w.kept(rng, st, 0).await;
+    let s1b = w.kept(rng, st, 1).await;
+    // the surviving link is cut by the relay, at rest (all k1 relays are told; the losers are gone already)
+    for l in &w.links {
+        let _ = l.cut.send(true);
+    }
+    st.bump(match how {
+        CutHow::Fin => "tcp_cut_fin",
+        CutHow::Rst => "tcp_cut_rst",
+        CutHow::HalfClose => "tcp_cut_halfclose",
+    });
+    schedule(&w.ctl, rng, 400_000, st).await;
+    let s2a = w.kept(rng, st, 0).await;
+    let s2b = w.kept(rng, st, 1).await;
+    for i in k1..k1 + k2 {
+        w.open(rng, st, dirs[i], i64::MAX, CutHow::Fin).await;
+        let n = *rng.pick(&[0usize, 3, 10, 40, 400]);
+        schedule(&w.ctl, rng, n, st).await;
+    }
+    schedule(&w.ctl, rng, 400_000, st).await;
+    let s3a = w.kept(rng, st, 0).await;
+    let s3b = w.kept(rng, st, 1).await;
+    let ready_of = |side: usize, kept: &Vec<String>| {
+        let mut r: Vec<String> = w.ready(side).into_iter().filter(|l| kept.contains(l)).collect();
+        r.sort();
+        r
+    };
+    st.bump("e2r");
+    let ds = |r: std::ops::Range<usize>| -> String { dirs[r].iter().map(|d| if *d { 'a' } else { 'b' }).collect() };
+    log.rec(
+        format!("e2r {na}@{host} {nb}@{host} {} {} by=a", ds(0..k1), ds(k1..k1 + k2)),
+        format!(
+            "{}|{} {}|{} {}|{}|{}|{}|{}|{}",
+            fmt_l(&s1a), fmt_l(&s1b), fmt_l(&s2a), fmt_l(&s2b), fmt_l(&s3a), fmt_l(&s3b),
+            fmt_l(&ready_of(0, &s3a)), fmt_l(&ready_of(1, &s3b)), fmt_l(&w.disconnected(0)), fmt_l(&w.disconnected(1))
+        ),
+    );
+    w.finish(rng, st).await;
+}
+
+
 async fn one_case(log: &mut Log, st: &mut Stats, rng: &mut Rng, case_no: u64) {
     let pool = [("a", "b"), ("b", "a"), ("n1", "n10"), ("x", "Y"), ("node2", "node10")];
     let (na, nb) = *rng.pick(&pool);
@@ -488,7 +1098,18 @@ async fn main() {
     let mut rng = Rng::new(seed);
     let mut log = Log::create(std::path::Path::new(&out)).unwrap();
     let mut st = Stats::default();
+    let tcp = args.u64("tcp", 0) == 1;
+    TCP.store(tcp, Ordering::Relaxed);
+    TLS.store(tcp && args.u64("tls", 0) == 1, Ordering::Relaxed);
+    tcpq::STRICT.store(tcp, Ordering::Relaxed);
     for c in 0..cases {
+        if tcp {
+            tcp_case(&mut log, &mut st, &mut rng, c).await;
+            if c % 5 == 3 {
+                tcp_reconnect_case(&mut log, &mut st, &mut rng, c).await;
+            }
+            continue;
+        }
         one_case(&mut log, &mut st, &mut rng, c).await;
         if c % 10 == 7 {
             timeout_case(&mut log, &mut st, &mut rng, c).await;
@@ -496,6 +1117,9 @@ async fn main() {
         if c % 10 == 3 {
             reconnect_case(&mut log, &mut st, &mut rng, c).await;
         }
+    }
+    if tcp {
+        tcpq::stats(&mut st);
     }
     st.add("lines", log.lines);
     st.write_json(&std::path::Path::new(&out).join("stats.json"));
